@@ -224,6 +224,8 @@ type Path struct {
 	ufDeclared map[string]bool
 	opaque     map[string]*Term
 	ifCount    map[*ssa.If]int
+	lastClock  *Term
+	absText    map[string][]Value
 	ifConc     map[*ssa.If]int
 	facts      map[uint64]factVal
 }
